@@ -104,8 +104,12 @@ def apply_T(v: Lin) -> Lin:
 
 def affine_hook(ev: Evaluator, call: ast.Call, name):
     nm = (name or "").split(".")[-1]
-    if name in ("np.asarray", "np.array", "numpy.asarray", "numpy.array") and call.args:
+    if name in ("np.asarray", "np.array", "numpy.asarray", "numpy.array", "np.copy", "numpy.copy", "copy.copy", "copy.deepcopy") and call.args:
         return ev.eval(call.args[0])
+    if isinstance(call.func, ast.Attribute) and call.func.attr == "copy" and not call.args:
+        v = ev.eval(call.func.value)
+        if isinstance(v, Lin):
+            return v
     if nm in ("rotation_matrix", "mirror_matrix"):
         m = Obj("matrix")
         m.set("T", m)
@@ -322,10 +326,15 @@ def linear_parts(repo: Repo) -> RuleRun:
             if len(args) == 1 and isinstance(args[0], ast.List):
                 args = list(args[0].elts)
             problems = []
+            in_this_call: Set[str] = set()
             for a in args:
                 if isinstance(a, ast.Starred):
                     continue
                 txt = ast.unparse(a)
+                if not isinstance(a, ast.Call) and isinstance(a, (ast.Name, ast.Attribute, ast.Subscript)):
+                    if txt in in_this_call:
+                        problems.append(f"'{txt}' is used for two faces of the same operation")
+                    in_this_call.add(txt)
                 if isinstance(a, ast.Call):
                     continue  # a fresh object (Face(...), x.copy(), get_face(...))
                 t = env.type_of(a)
